@@ -23,6 +23,56 @@ Definition other_gap (i : input) : bool :=
   | _, _, _ => false
   end.
 
+(* ---------------- round 11: the transport of the secret.
+   The property asks for "the correct secret via Basic or - if enabled - POST".  As coded
+   Config.AuthMethodPost only stops clients REGISTERED client_secret_post; a client registered
+   client_secret_basic (or with a method outside the constants) that sends its exact secret as a
+   form parameter while AuthMethodPost is off is served by every handler that reads form
+   credentials (finding Fxx-C05-6).  [cred_valid_lax] / [token_justified_lax] / [justified_lax] are
+   the justification WITHOUT the transport rule (what rounds 1-10 proved, and what the code enforces
+   everywhere outside the device gap); [post_gap] is the input class of the finding. *)
+Definition cred_valid_lax (c : cfg) (rg : reg) (p : pres) (public_allowed : bool) : bool :=
+  r_known rg &&
+  match r_meth rg with
+  | MBasic | MOther => presents_right_secret p
+  | MPost => presents_right_secret p && f_post c
+  | MPKJWT => presents_ok_assertion p && r_key rg && f_pkjwt c
+  | MNone => public_allowed && identifies p
+  end.
+Definition token_justified_lax (c : cfg) (rg : reg) (p : pres) (g : grant) : bool :=
+  match g with
+  | GBearer => r_known rg && r_key rg && negb (names_nobody p)
+  | _ => capability c g && registered rg g && cred_valid_lax c rg p (grant_public g)
+  end.
+Definition justified_lax (i : input) : bool :=
+  match i_endpoint i with
+  | EToken => token_justified_lax (i_cfg i) (i_reg i) (i_pres i) (i_grant i)
+  | EIntrospect => introspect_justified (i_reg i) (i_pres i)
+  | ERevoke => revoke_justified (i_reg i) (i_pres i)
+  | EDeviceAuthz => device_authz_justified (i_reg i) (i_pres i)
+  end.
+
+(* the token-endpoint handlers that take client_id / client_secret from the form (the others read
+   the Authorization header or an assertion only: Provider router token exchange and device_code) *)
+Definition reads_form_secret (r : router) (g : grant) : bool :=
+  match r, g with
+  | RProvider, (GCode | GRefresh | GCC) => true
+  | RLegacy, (GCode | GRefresh | GCC | GTE | GDevice) => true
+  | _, _ => false
+  end.
+(* a client whose secret is not bound to the form by its registration *)
+Definition secret_not_post (m : amethod) : bool := match m with MBasic | MOther => true | _ => false end.
+(* the exact secret travels in the form only, the provider has not enabled client_secret_post *)
+Definition form_only_while_post_off (c : cfg) (p : pres) : bool :=
+  negb (f_post c) && secret_in_form p && negb (secret_in_basic p).
+(* finding Fxx-C05-6 *)
+Definition post_gap (i : input) : bool :=
+  match i_endpoint i with
+  | EToken => reads_form_secret (i_router i) (i_grant i) && secret_not_post (r_meth (i_reg i))
+              && form_only_while_post_off (i_cfg i) (i_pres i)
+  | _ => false
+  end.
+
 Definition success (o : observed) : bool :=
   match o with ORes S2 _ _ _ _ => true | _ => false end.
 
@@ -34,8 +84,8 @@ Ltac unfold_defs :=
     cc_secret_ok, storage_secret_ok, assertion_opt_ok, assertion_ok, nonempty, bearer_ok, r4, r5, read_grant, visible, seen, src_dispatch_p, src_dispatch_l,
     src_with_client, src_verify_client, src_client, src_artefact, src_device_code_p,
     other_justified, justified, victim_of, by_grant_assertion,
-    token_justified, cred_valid, authenticated, introspect_justified, revoke_justified, device_authz_justified,
-    refusal_shape in *.
+    token_justified, cred_valid, token_justified_lax, cred_valid_lax, justified_lax, secret_as_enabled, authenticated, introspect_justified, revoke_justified, device_authz_justified,
+    refusal_shape, revoke_outcome, art_ok in *.
 
 Ltac split_goal :=
   cbn; unfold_defs;
@@ -61,5 +111,5 @@ Ltac split_goal :=
   cbn; try reflexivity; try discriminate; try congruence.
 
 Ltac open_input i :=
-  destruct i as [r e c rg p g pl pv]; destruct pl as [gp cp ap]; destruct c as [fpost fpk fref ccc cte cdev cjp csub];
+  destruct i as [r e c rg p g pl pv ar]; destruct pl as [gp cp ap]; destruct c as [fpost fpk fref ccc cte cdev cjp csub];
   destruct rg as [known meth app gs key].
